@@ -1,6 +1,7 @@
 import jax
 
 from fdtdx.config import SimulationConfig
+from fdtdx.core import verif_hooks
 from fdtdx.fdtd.container import ArrayContainer, FieldState, ObjectContainer, PmlAuxField, SimulationState
 from fdtdx.fdtd.update import collect_interfaces, update_detector_states, update_E, update_H
 from fdtdx.interfaces.state import RecordingState
@@ -152,5 +153,8 @@ def forward(
             inverse=False,
         )
 
+    verif_hooks.emit_step(
+        "fwd", time_step, arrays.fields.E, arrays.fields.H, rd=bool(record_detectors), rb=bool(record_boundaries)
+    )
     next_state = (time_step + 1, arrays)
     return next_state
